@@ -60,7 +60,7 @@ Proof. intros Hl He. by apply app_inj_1. Qed.
 
 (** * [sfind] *)
 
-Lemma sfind_keys_gen p (s : store) (l : list bytes) :
+Lemma sfind_keys_gen (p : bytes) (s : store) (l : list bytes) :
   (forall k, k ∈ l -> is_Some (s !! k)) ->
   map fst (omap (fun k => if is_prefix p k then (fun v => (k, v)) <$> (s !! k) else None) l)
   = filter (fun k => is_prefix p k = true) l.
